@@ -1248,3 +1248,129 @@ Proof.
   intros. rewrite (switch_explicit names dflt base bsegs t a b segs path); auto.
   unfold spec_first_match, res_str_eqb. apply str_eqb_refl.
 Qed.
+
+(** * match_nested *)
+Lemma find_loc_some : forall f names ol idx l r, find_loc f names ol idx = Some (l, r) ->
+  exists k, l = (idx + k)%nat /\ (k < length names)%nat /\ nth k names [] = f /\ nth k ol None = Some r /\
+            forall j, (j < k)%nat -> nth j names [] = f -> nth j ol None = None.
+Proof.
+  intros f names. induction names as [|nm names IH]; intros ol idx l r H; [destruct ol; discriminate|].
+  destruct ol as [|o ol]; [discriminate|]. cbn [find_loc] in H.
+  destruct (str_eqb nm f) eqn:E.
+  - destruct o as [r0|].
+    + inversion H; subst. exists 0%nat. apply str_eqb_eq in E. cbn [nth length].
+      repeat split; [lia|lia|exact E|]. intros j Hj. lia.
+    + destruct (IH _ _ _ _ H) as [k [H1 [H2 [H3 [H4 H5]]]]]. exists (S k). cbn [nth length].
+      repeat split; [lia|lia|exact H3|exact H4|]. intros j Hj Hf. destruct j as [|j']; [reflexivity|]. apply H5; [lia|exact Hf].
+  - destruct (IH _ _ _ _ H) as [k [H1 [H2 [H3 [H4 H5]]]]]. exists (S k). cbn [nth length].
+    repeat split; [lia|lia|exact H3|exact H4|]. intros j Hj Hf. destruct j as [|j'].
+    + cbn [nth] in Hf. apply str_eqb_neq in E. contradiction.
+    + apply H5; [lia|exact Hf].
+Qed.
+
+Lemma find_loc_first : forall f names ol idx k r,
+  (k < length names)%nat -> nth k names [] = f -> nth k ol None = Some r ->
+  (forall j, (j < k)%nat -> nth j names [] = f -> nth j ol None = None) ->
+  find_loc f names ol idx = Some ((idx + k)%nat, r).
+Proof.
+  intros f names. induction names as [|nm names IH]; intros ol idx k r Hk Hn Ho Hfirst; [cbn in Hk; lia|].
+  destruct ol as [|o ol]; [destruct k; discriminate|]. cbn [find_loc].
+  destruct k as [|k'].
+  - cbn [nth] in Hn, Ho. subst nm o. rewrite str_eqb_refl. f_equal. f_equal. lia.
+  - cbn [nth length] in Hn, Ho, Hk.
+    assert (R : find_loc f names ol (S idx) = Some ((idx + S k')%nat, r)).
+    { replace (idx + S k')%nat with (S idx + k')%nat by lia. apply IH; [lia|exact Hn|exact Ho|].
+      intros j Hj Hf. apply (Hfirst (S j)); [lia|exact Hf]. }
+    destruct (str_eqb nm f) eqn:E; [|exact R].
+    apply str_eqb_eq in E. pose proof (Hfirst 0%nat ltac:(lia) E) as Z. cbn [nth] in Z. subst o. exact R.
+Qed.
+
+Lemma find_loc_none : forall f names ol idx,
+  (forall k, (k < length names)%nat -> nth k names [] = f -> nth k ol None = None) ->
+  find_loc f names ol idx = None.
+Proof.
+  intros f names. induction names as [|nm names IH]; intros ol idx H; [destruct ol; reflexivity|].
+  destruct ol as [|o ol]; [reflexivity|]. cbn [find_loc].
+  assert (R : find_loc f names ol (S idx) = None).
+  { apply IH. intros k Hk Hf. apply (H (S k)); [cbn [length]; lia|exact Hf]. }
+  destruct (str_eqb nm f) eqn:E; [|exact R].
+  apply str_eqb_eq in E. pose proof (H 0%nat ltac:(cbn [length]; lia) E) as Z. cbn [nth] in Z. subst o. exact R.
+Qed.
+
+(** a path whose first segment is exactly the name of locale [l] (the first one that serves it) is read
+    with that locale, whatever the inner table would do with the whole path ([od] is arbitrary) *)
+Theorem match_nested_prefix_first : forall names f ol od l r,
+  (l < length names)%nat -> name_of names l = f -> nth l ol None = Some r ->
+  (forall j, (j < l)%nat -> name_of names j = f -> nth j ol None = None) ->
+  match_nested_model names (Some f) ol od = Some (Some l, slash :: f, r).
+Proof.
+  intros names f ol od l r Hl Hn Ho Hfirst. unfold match_nested_model.
+  rewrite (find_loc_first f names ol 0 l r Hl Hn Ho Hfirst). cbn [plus]. rewrite Hn. reflexivity.
+Qed.
+
+Theorem match_nested_locale_exact : forall names first ol od l m r,
+  match_nested_model names first ol od = Some (Some l, m, r) ->
+  exists f, first = Some f /\ (l < length names)%nat /\ name_of names l = f /\ nth l ol None = Some r /\ m = slash :: f.
+Proof.
+  intros names first ol od l m r H. unfold match_nested_model in H.
+  destruct first as [f|].
+  - destruct (find_loc f names ol 0) as [[l' r']|] eqn:E.
+    + inversion H; subst. destruct (find_loc_some _ _ _ _ _ _ E) as [k [H1 [H2 [H3 [H4 _]]]]]. cbn [plus] in H1. subst k.
+      exists f. unfold name_of. rewrite H3. repeat split; assumption.
+    + destruct od; inversion H.
+  - destruct od; inversion H.
+Qed.
+
+Theorem match_nested_bare : forall names f ol od,
+  (forall k, (k < length names)%nat -> name_of names k = f -> nth k ol None = None) ->
+  match_nested_model names (Some f) ol od = match od with Some r => Some (None, [], r) | None => None end.
+Proof.
+  intros names f ol od H. unfold match_nested_model. rewrite (find_loc_none f names ol 0 H). reflexivity.
+Qed.
+
+Lemma find_loc_none_inv : forall f names ol idx, find_loc f names ol idx = None ->
+  forall k, (k < length names)%nat -> nth k names [] = f -> nth k ol None = None.
+Proof.
+  intros f names. induction names as [|nm names IH]; intros ol idx H k Hk Hf; [cbn in Hk; lia|].
+  destruct ol as [|o ol]; [destruct k; reflexivity|]. cbn [find_loc] in H.
+  destruct k as [|k'].
+  - cbn [nth] in Hf |- *. subst nm. rewrite str_eqb_refl in H. destruct o; [discriminate|reflexivity].
+  - cbn [nth length] in Hf, Hk |- *. apply (IH ol (S idx)); [|lia|exact Hf].
+    destruct (str_eqb nm f); [destruct o; [discriminate|exact H]|exact H].
+Qed.
+
+Lemma list_eqb_refl : forall {A} (e : A -> A -> bool), (forall x, e x x = true) -> forall l, list_eqb e l l = true.
+Proof. intros A e He. induction l as [|x l IH]; cbn [list_eqb]; [reflexivity|]. rewrite He, IH. reflexivity. Qed.
+
+Lemma mres_eqb_refl : forall r, mres_eqb r r = true.
+Proof.
+  intros [s ps]. unfold mres_eqb, pair_eqb. cbn [fst snd]. rewrite str_eqb_refl. cbn [andb].
+  apply list_eqb_refl. intros [a b]. cbn [fst snd]. rewrite !str_eqb_refl. reflexivity.
+Qed.
+
+Lemma not_served_below : forall (names : list str) (ol : list (option mres)) (f : str) l,
+  (forall j, (j < l)%nat -> nth j names ([] : str) = f -> nth j ol None = None) ->
+  forallb (fun j => negb (served names ol f j)) (seq 0 l) = true.
+Proof.
+  intros names ol f l H. apply forallb_forall. intros j Hj. apply in_seq in Hj.
+  unfold served, name_of. destruct (str_eqb (nth j names []) f) eqn:E; [|reflexivity].
+  apply str_eqb_eq in E. rewrite (H j ltac:(lia) E). reflexivity.
+Qed.
+
+Theorem spec_match_model : forall names first ol od,
+  spec_match names first ol od (match_nested_model names first ol od) = true.
+Proof.
+  intros names first ol od. unfold match_nested_model, spec_match.
+  destruct first as [f|].
+  - destruct (find_loc f names ol 0) as [[l r]|] eqn:E.
+    + destruct (find_loc_some _ _ _ _ _ _ E) as [k [H1 [H2 [H3 [H4 H5]]]]]. cbn [plus] in H1. subst k.
+      apply Nat.ltb_lt in H2. rewrite H2. unfold name_of. rewrite H3, H4, str_eqb_refl. cbn [andb omres_eqb].
+      rewrite mres_eqb_refl, str_eqb_refl. cbn [andb]. apply not_served_below. exact H5.
+    + pose proof (find_loc_none_inv _ _ _ _ E) as N.
+      assert (NS : forallb (fun j => negb (served names ol f j)) (seq 0 (length names)) = true).
+      { apply forallb_forall. intros j Hj. apply in_seq in Hj. unfold served, name_of.
+        destruct (str_eqb (nth j names []) f) eqn:F; [|reflexivity].
+        apply str_eqb_eq in F. rewrite (N j ltac:(lia) F). reflexivity. }
+      destruct od as [r|]; cbn [nonempty negb omres_eqb is_some andb]; [rewrite mres_eqb_refl|]; exact NS.
+  - destruct od as [r|]; cbn [nonempty negb omres_eqb is_some andb]; [rewrite mres_eqb_refl|]; reflexivity.
+Qed.
